@@ -366,6 +366,9 @@ func engineAbort(p interface{}) bool {
 	switch p.(type) {
 	case Inconclusive, pathEnd, exitPanic:
 		return true
+	case string:
+		// engine-internal consistency panics are never target panics
+		return true
 	case runtime.Error:
 		if _, ok := p.(*runtime.TypeAssertionError); ok {
 			return true
